@@ -60,6 +60,9 @@ type Content struct {
 	Natural string
 	As      map[string]View
 	Digest  digest.Digest
+	// Phantom: only a digest (of an algorithm other than sha256): it names content no registry here
+	// can hold; it is used as an argument only, never as content to send
+	Phantom bool
 }
 
 type Catalog struct {
@@ -132,6 +135,24 @@ func (cat *Catalog) add(c *Content) *Content {
 	cat.byID[c.ID] = c
 	cat.byDigest[c.Digest] = c
 	return c
+}
+
+// addPhantoms adds digests of the other registered algorithms to the catalogue: well-formed
+// digests that every layer has to relay verbatim and that never name stored content.
+func (cat *Catalog) addPhantoms() {
+	for _, p := range []struct {
+		id  string
+		dig digest.Digest
+	}{
+		{"x384", digest.SHA384.FromString("phantom")},
+		{"x512", digest.SHA512.FromBytes(cat.byID["b1"].Data)}, // the sha512 digest of bytes the catalogue does hold
+	} {
+		c := &Content{ID: p.id, Elems: []int{999999}, Natural: "octet", Digest: p.dig, Phantom: true,
+			As: map[string]View{"image": noView, "index": noView}}
+		cat.Contents = append(cat.Contents, c)
+		cat.byID[c.ID] = c
+		cat.byDigest[c.Digest] = c
+	}
 }
 
 var noView = View{WF: false, Blobs: []string{}, Mans: [][2]string{}, Subject: "-", SubjectType: "-"}
